@@ -4,6 +4,7 @@
    consults a fault oracle; the routing and the analysis are given data. *)
 From Coq Require Import Arith.
 From DippyV Require Import Base.Str Base.Verdict Model.Logging Proofs.LoggingP Proofs.JsonP Proofs.LogLineP Proofs.AppendP.
+From DippyV Require Model.Cache Proofs.CacheP.
 
 (* the tie: the except clauses and the raiseExceptions setting read from the working tree are those of
    [head], the table every theorem below speaks about *)
@@ -122,6 +123,52 @@ Theorem C15_interleave_chunked_refuted :
     In l (fst (lines_of (bytes (exec prog sch)))) /\ forall p, ~ In l (fst (lines_of (concat (prog p)))).
 Proof. exact interleave_chunked_refuted. Qed.
 Print Assumptions C15_interleave_chunked_refuted.
+
+(* config.log_decision as a function of its arguments (what the direct-call stream of the harness compares, for every
+   subset of the optional arguments): the keys, in order; the command text is there iff log-full is set and a command
+   was given; the values are the arguments *)
+Theorem C15_entry : forall full d c r m cmd ts,
+  map fst (entry full d c r m cmd ts) =
+    [$"decision"; $"cmd"] ++ (if is_given r then [$"rule"] else []) ++ (if is_given m then [$"message"] else [])
+    ++ (if full && is_given cmd then [$"command"] else []) ++ [$"ts"] /\
+  (In ($"command") (map fst (entry full d c r m cmd ts)) <-> full = true /\ cmd <> None) /\
+  (forall x, cmd = Some x -> full = true -> In ($"command", x) (entry full d c r m cmd ts)).
+Proof.
+  exact (fun full d c r m cmd ts => conj (direct_entry_keys full d c r m cmd ts) (conj (direct_entry_command_iff full d c r m cmd ts)
+           (proj2 (proj2 (proj2 (direct_entry_values full d c r m cmd ts)))))).
+Qed.
+Print Assumptions C15_entry.
+
+(* A process that decides more than once (library use, a test harness; Model/Cache.v is the process state:
+   handler cache, MODE, _log_config, _log_disabled): for ANY state the process is in - whatever it analysed,
+   configured or failed to write before - a main() run appends to the destination of ITS OWN configuration, with
+   the log-full flag of its own configuration, unless its own configure / write fails; nothing else. *)
+Theorem C15_history_local :
+  forall (value : Type) (load : str -> value) (input : Type) (analysis : input -> Cache.prog value) (explicit : option Cache.hmode)
+         s s' det x log cf df,
+    Cache.effect value load input analysis explicit s (Cache.QMain det x log cf df) = Cache.main_effect_spec log cf df /\
+    Cache.effect value load input analysis explicit s (Cache.QMain det x log cf df) =
+    Cache.effect value load input analysis explicit s' (Cache.QMain det x log cf df).
+Proof.
+  exact (fun value load input analysis explicit s s' det x log cf df =>
+           conj (CacheP.main_effect value load input analysis explicit s det x log cf df)
+                (CacheP.main_effect_local value load input analysis explicit s s' det x log cf df)).
+Qed.
+Print Assumptions C15_history_local.
+Theorem C15_history_full :
+  forall (value : Type) (load : str -> value) (input : Type) (analysis : input -> Cache.prog value) (explicit : option Cache.hmode)
+         s det x log cf df p full,
+    Cache.effect value load input analysis explicit s (Cache.QMain det x log cf df) = Some (p, full) -> log = Some (p, full).
+Proof. exact CacheP.main_effect_full. Qed.
+Print Assumptions C15_history_full.
+(* the same for a bare log_decision call is false: an earlier failure silences it until the next
+   configure_logging (documented: "prevents repeated attempts"); main() configures first, every time *)
+Theorem C15_direct_call_refuted :
+  exists (s s' : Cache.state unit),
+    Cache.effect unit (fun _ => tt) unit (fun _ => Cache.Done (Allow, [])) None s (Cache.QLogDecision false)
+    <> Cache.effect unit (fun _ => tt) unit (fun _ => Cache.Done (Allow, [])) None s' (Cache.QLogDecision false).
+Proof. exact CacheP.direct_effect_refuted. Qed.
+Print Assumptions C15_direct_call_refuted.
 
 (* non-vacuity: a run with a /dev/full-like decision log and a dead approvals log still answers;
    a working run logs one line with the command under log-full *)
